@@ -113,6 +113,7 @@ def run(rep, tier):
     rep.rule('R14.3', 'run-state coverage: every persistent run-state member of the engines is serialized and restored, or exempt with a reason; InterpreterImpl restores what it saves')
     rep.rule('R14.4', 'foreign state is rejected first: in InterpreterImpl::deserialize the MD5 comparison dominates every restoring call; serialize() refuses unless the state is IDLE, MACROSTEPPED or FINISHED')
     rep.rule('R14.5', 'restore order: data-model values are restored before the micro-stepper state (which re-runs active invocations that read them)')
+    rep.rule('R14.6', 'scalar encodings agree: a key whose reader converts the atom with strTo<T> is written by handing a value of the same type T to the generic Data(value, type) constructor (toStr of the same type), not a hand-written literal spelling ("true"/"false" is not what strTo<bool> reads)')
     rep.assume('behavioural identity of the resumed interpreter is not decided')
     tus = TUS if tier == 'quick' else facts.library_tus()
     fb = facts.FactBase(tus)
@@ -328,3 +329,46 @@ def run(rep, tier):
         raise AnalysisBroken('InterpreterImpl::deserialize: data model restore / micro-stepper restore not found')
     late = g.can_reach(g.pos[ms[0]['id']], [d['id'] for d in dm])
     rep.check(late is None, 'R14.5', 'deserialize|datamodel before microstepper', locstr(ms[0]), 'no data-model restore is reachable after the micro-stepper was restored (it re-invokes with current data): %s' % (late is None))
+
+    # ---- R14.6
+    n_scal = 0
+    for wq, rq in PAIRS:
+        w, r = fb.fn(wq), fb.fn(rq)
+        readers = {}
+        for n in r.walk():
+            q = n.get('callee', {}).get('q', '')
+            if n['k'] == 'CallExpr' and q == 'uscxml::strTo':
+                ks = [key_of_index(s_) for s_ in sub(n) if is_data_index(s_)]
+                ks = [k for k in ks if k]
+                if ks:
+                    readers[ks[-1]] = (n.get('t', '?'), n)
+        if not readers:
+            continue
+        for n in w.walk():
+            if n['k'] == 'CXXOperatorCallExpr' and n.get('op') == '=' and len(n.get('c', [])) > 2:
+                ks = [key_of_index(s_) for s_ in sub(n['c'][1]) if is_data_index(s_)]
+                ks = [k for k in ks if k]
+                if not ks or ks[-1] not in readers:
+                    continue
+                want_t, rn = readers[ks[-1]]
+                ctor = None
+                for s_ in sub(n['c'][2]):
+                    if s_['k'] in ('CXXConstructExpr', 'CXXTemporaryObjectExpr', 'CXXFunctionalCastExpr') and s_.get('callee', {}).get('q', '').startswith('uscxml::Data::Data') and s_.get('c'):
+                        ctor = s_
+                        break
+                if ctor is None:
+                    continue
+                n_scal += 1
+                a0 = strip(ctor['c'][0])
+                got_t = ((a0 or {}).get('t') or '').replace('const ', '').strip()
+                integral = lambda t: bool(re.match(r'^(unsigned |signed )?(long|int|short|char|long long)( long| int)*$|^u?int\d+_t$|^size_t$', t))
+                is_enum = lambda t: t.startswith('enum ') or t.endswith('::Type') or t == 'Type'
+                if want_t in ('bool', '_Bool'):
+                    ok = got_t in ('bool', '_Bool')
+                elif integral(want_t):
+                    ok = integral(got_t) or is_enum(got_t)
+                else:
+                    ok = got_t == want_t
+                rep.check(ok, 'R14.6', '%s|%s' % (w.rec.split('::')[-1], ks[-1]), locstr(n), 'key "%s" is read with strTo<%s> and written from a value of type %s%s' % (
+                    ks[-1], want_t, got_t or '?', '' if ok else ': the spelling the writer chooses is not the one toStr/strTo<%s> use' % want_t))
+    rep.minimum('R14.6', n_scal, 1, 'scalar keys read with strTo<T>')
